@@ -5,7 +5,6 @@ import (
 	"encoding/json"
 	"fmt"
 	"testing"
-	"testing/synctest"
 	"time"
 
 	"gitlab.com/gomidi/midi/v2"
@@ -585,7 +584,7 @@ func (s *PortHist) Run(env *core.Env, st *core.Stats) (vs []core.Violation) {
 		}
 	}
 	if env != nil && env.T != nil {
-		synctest.Test(env.T, body)
+		runBubble(env, body)
 	} else {
 		body(nil)
 	}
